@@ -466,6 +466,34 @@ def _creator_phrase(kind: str, label: str) -> str:
     raise ConsistencyError(f"Cannot phrase a creator of kind {kind}: {label}")
 
 
+def _volatile_input_message(path: str, producer: str, consumer: str) -> str:
+    """Format the error for a file that one step declares volatile and another step uses as input.
+
+    The text is independent of which of the two declarations was made first,
+    for the same reason as `_file_collision_message`:
+    a plan that is wrong is wrong in either order, so it deserves the same diagnostic.
+
+    Parameters
+    ----------
+    path
+        The (normalized) path of the file.
+    producer
+        The node declaring the file volatile, as returned by `_creator_phrase`.
+    consumer
+        The node using the file as an input, as returned by `_creator_phrase`.
+
+    Returns
+    -------
+    message
+        The error message.
+    """
+    return (
+        f"File ({path}) cannot be both declared volatile by {producer} "
+        f"and used as an input by {consumer}. "
+        "A volatile output cannot be an input: drop one of the two."
+    )
+
+
 @attrs.define(frozen=True, order=True)
 class Decl:
     """A file declaration, with its creator named for the plan author."""
@@ -1591,7 +1619,14 @@ class Workflow(Trellis):
             # hence unavailable, until its creator returns or it is deleted.
             state = file.get_state()
             if state == FileState.VOLATILE:
-                raise GraphError(f"Input is volatile: {path}")
+                producer = file.creator()
+                raise GraphError(
+                    _volatile_input_message(
+                        path,
+                        _creator_phrase(producer.kind(), producer.label),
+                        _creator_phrase(step.kind(), step.label),
+                    )
+                )
             self._raise_if_forbidden_target(path, state)
         new_relation = (
             self.db.execute(
@@ -1705,8 +1740,15 @@ class Workflow(Trellis):
 
         if file_state == FileState.VOLATILE:
             # Do not allow volatile files to have sinks.
-            if any(file.sinks()):
-                raise GraphError(f"An input to an existing step cannot be volatile: {path}")
+            consumers = sorted(file.sinks(), key=(lambda node: node.label))
+            if len(consumers) > 0:
+                raise GraphError(
+                    _volatile_input_message(
+                        path,
+                        _creator_phrase(creator.kind(), creator.label),
+                        _creator_phrase(consumers[0].kind(), consumers[0].label),
+                    )
+                )
         else:
             # Watch parent directories of non-volatile files.
             self.watch_dir(Path(path).parent)
